@@ -12,11 +12,17 @@ T  (a) the SAME Lean checker (Model/SolverCert.lean: `certify`, built on the C11
    with the real static functions of engine_solver.c on synthetic one-dof line problems;
    (c) the Lean partition checker (Model/IslandSep.lean `partitionOk`, proved to decide the hypotheses of the island
    theorem) is run on the REAL output of mj_island (dof_island, efc_island) with the dense M and J of every solve that
-   used islands: the partition handed to the per-island solvers must make the documented cost block separable.
+   used islands: the partition handed to the per-island solvers must make the documented cost block separable;
+   (d) the Lean impedance checker (Model/ConeImp.lean, built on the C12 model `impEll` of mj_makeImpedance) is run on the
+   REAL efc_R / efc_D / contact.mu / contact.friction of every frictional contact of every solve: they must be the output
+   of the documented impedance law (R[j] friction[j]^2 = const, mu = friction[0] sqrt(R[i+1]/R[i]), D = 1/R), which is the
+   hypothesis under which the cone cost satisfies the certificate's GradIneq (cone_block_gradIneq_documented_impedance)
+   and under which the primal (efc_D, mu, friction) and the dual (efc_R) solvers describe the same problem.
 S  oracle on generated scenes (equality, friction loss, limits, pyramidal and elliptic contacts of every condim; plus
    coupled-tree scenes: several kinematic trees coupled only by joint / tendon equalities, tendon limits and friction
    loss, spatial tendons, connect / weld with body and site semantics, over adjacent and distant trees, first / last /
-   inner dofs), for Newton / CG / PGS, dense / sparse, islands on / off, warm start on / off, tolerance 1e-12:
+   inner dofs; plus explicit contact pairs with five different friction coefficients, condim 1 / 3 / 4 / 6, impratio
+   0.5 .. 10, optional solreffriction, sticking and sliding states), for Newton / CG / PGS, dense / sparse, islands on / off, warm start on / off, tolerance 1e-12:
    converged primal solves have a certified sub-optimality <= BOUND_REL (scaled like the solver's own statistics);
    the solvers agree pairwise within the certified radii; the per-island and the monolithic solve of the same solver
    agree within ISLAND_AGREE (qacc in the M-norm, efc_force); a primal solver never ends above the cheaper of its two
@@ -39,6 +45,8 @@ META = {
                  "hand model of the PrimalSearch exit logic and PrimalEval (scalar rows) tied BITWISE to the static C functions; "
                  "verified partition checker (Lean, proved to decide the hypotheses of the island theorem) evaluated on the real "
                  "dof_island / efc_island of mj_island with the dense M, J of every per-island solve; "
+                 "verified impedance checker (Lean, the C12 model of mj_makeImpedance) evaluated on the real efc_R / efc_D / contact.mu "
+                 "of every frictional contact (hypothesis of the certificate for cone blocks); "
                  "property oracle over generated scenes",
     "text": "Proved over the reals for every positive definite M, every J, a0, aref and every convex differentiable constraint "
             "cost s with force f = -grad s (a hypothesis in general; DISCHARGED here for every problem made of scalar rows - equality, friction "
@@ -53,6 +61,9 @@ META = {
             "label, no row is outside every island and the rows of one cone block share a label, a point that solves every island's "
             "sub-problem and equals qacc_smooth outside the islands is the global minimiser (island_solve_is_global_minimiser), and the "
             "executable partition check returns true exactly when these hypotheses hold (island_partition_checker_sound); "
+            "for an elliptic cone block whose regularisers follow the documented impedance law of mj_makeImpedance (any impratio, any "
+            "positive, possibly anisotropic friction coefficients) the cone cost of the C11/C12 model satisfies the supporting-hyperplane "
+            "inequality, i.e. the hypothesis of the certificates (cone_block_gradIneq_documented_impedance); "
             "for the modelled PrimalSearch, for every evaluation function, every exit either "
             "returns step 0, or a point whose evaluated cost difference is < 0, or is one of three exits the code does not "
             "cost-check (LSresult 3, 7, converged bracket candidate); for scalar rows the modelled PrimalPrepare + PrimalEval return exactly the "
@@ -64,7 +75,10 @@ META = {
     "note": "the solver iterations (Newton Hessian / Cholesky updates, CG directions, PGS sweeps, QCQP) are not modelled: their "
             "results are judged by the certificate. Island DISCOVERY (engine_island.c: treeNext / treeIterInit / unionConstraintTrees) is "
             "not modelled either (C17 models the union-find and the index maps): its output is judged on every per-island solve by the "
-            "verified partition checker, so which partitions get checked is sampled (flex contacts / flex equalities are not generated). Convexity of the elliptic cone cost is a hypothesis of the certificate "
+            "verified partition checker, so which partitions get checked is sampled (flex contacts / flex equalities are not generated). The certificate reads efc_D / contact.mu from the engine; that these are what the documented impedance law gives from efc_R[i], "
+            "impratio and contact.friction is checked on every frictional contact of every solve (relative 1e-10; observed bit-identical), "
+            "which contacts is sampled (anisotropic friction only through explicit contact pairs); for pyramidal contacts R[i] is overwritten, "
+            "so only the equality of the rows, D R = 1 and mu are checked there. Convexity of the elliptic cone cost is a hypothesis of the certificate "
             "theorems (proved separately in Props/C12 under the impedance relation). PrimalEval is modelled for scalar rows "
             "only (elliptic cone line evaluation: oracle only). PGS (dual method) is judged by the cost gap to the best other solve of the "
             "same rows, not by the primal upper bound. Observation recorded by the oracle: for the same state the dense and the sparse "
@@ -89,6 +103,8 @@ THEOREMS = [
     "MjProof.C10.island_solve_is_global_minimiser",
     "MjProof.C10.island_solve_is_global_minimiser_scalar_rows",
     "MjProof.C10.island_partition_checker_sound",
+    "MjProof.C10.cone_block_gradIneq_documented_impedance",
+    "MjProof.C10.cone_block_model",
     "MjProof.C10.primalSearch_checked",
     "MjProof.C10.primalEval_is_cost_difference",
     "MjProof.C10.primalSearch_checked_decreases_cost",
@@ -222,10 +238,11 @@ WITNESS = {
 # per-island vs monolithic solve of the same problem by the same solver, both converged at tolerance 1e-12: (M-norm distance /
 # (|qacc|_M + 1), max efc_force difference / max(1, |force|)); observed maxima on the unmodified tree in the comments
 ISLAND_AGREE = {"Newton": (1e-8, 1e-7),            # 1.6e-12, 1.7e-11
-                "Newton/elliptic": (1e-6, 1e-5),   # 1.0e-9, 6.0e-9
-                "CG": (1e-5, 1e-4),                # 7.5e-9, 3.6e-8
-                "CG/elliptic": (1e-4, 1e-3),       # 7.9e-8, 7.3e-7
-                "PGS": (1e-5, 1e-3)}               # 7.2e-8, 6.8e-6   (PGS/elliptic: not judged, see PGS_ELLIPTIC_KEY)
+                "Newton/elliptic": (1e-6, 1e-5),   # 2.3e-9, 2.7e-7
+                "CG": (1e-5, 1e-4),                # 2.9e-7, 9.9e-7
+                "CG/elliptic": (1e-4, 1e-3),       # 1.2e-7, 8.2e-7
+                "PGS": (1e-5, 1e-3)}               # 1.0e-7, 1.1e-5   (PGS/elliptic: not judged, see PGS_ELLIPTIC_KEY)
+IMP_REL = 1e-10           # efc_R / efc_D / contact.mu against the documented impedance law (observed: bit-identical up to 1 ulp)
 COST_TIE_REL = 1e-9       # Lean constraint cost vs mj_constraintUpdate cost
 FORCE_TIE_REL = 1e-9      # Lean forces vs mj_constraintUpdate forces
 MONO_REL = 1e-9           # final cost may exceed the start cost by rounding only
@@ -244,7 +261,7 @@ def fmt(v):
     return " ".join(repr(float(x)) for x in v)
 
 
-def gen_script(ctx, nmodels, ntrees):
+def gen_script(ctx, nmodels, ntrees, npairs):
     rng = ctx.rng
     script, meta = [], []
     for mi in range(-1, nmodels):
@@ -333,6 +350,39 @@ def gen_script(ctx, nmodels, ntrees):
                 meta.append(("solve", dict(info, op=op, solver=solver, noisland=noisland, jac=jac, cone=cone, nowarm=nowarm,
                                            truncated=iters < 10, loose=False)))
     ctx.extra["coupled_tree_scene_constraints"] = kinds
+    # explicit contact pairs with anisotropic friction, every condim, impratio != 1: primal and dual solvers must still describe
+    # the same problem (regularisers of mj_makeImpedance)
+    pstat = {"scenes": 0, "pairs_anisotropic": 0, "condim": {}}
+    for pi in range(npairs):
+        mlines, joints, pinfo = gen_pair_scene(rng)
+        mi = 2000 + pi
+        pstat["scenes"] += 1
+        pstat["pairs_anisotropic"] += pinfo["anisotropic"]
+        for c in pinfo["condims"]:
+            pstat["condim"][str(c)] = pstat["condim"].get(str(c), 0) + 1
+        script.append("model")
+        script += mlines + ["end"]
+        meta.append(("model", {"model": mi, "lines": mlines}))
+        for si in range(2):
+            setlines = pair_state(rng, joints, pinfo["nv"])
+            nsettle = rng.choice((0, 0, 3))
+            info = {"model": mi, "state": si, "set": setlines, "settle": nsettle, "family": "anisotropic-pairs"}
+            for l in setlines:
+                script.append(l)
+                meta.append(("state", info))
+            script.append("settle %d" % nsettle)
+            meta.append(("settle", info))
+            cone = rng.choice((E("mjCONE_ELLIPTIC"), E("mjCONE_ELLIPTIC"), E("mjCONE_PYRAMIDAL")))
+            impratio = rng.choice((0.5, 1.0, 1.0, 2.0, 10.0))
+            nowarm = 1 if rng.random() < 0.25 else 0
+            cfgs = [(s_, rng.choice((E("mjJAC_DENSE"), E("mjJAC_SPARSE"))), n_, ITER[s_], TOL) for s_ in (NEWTON, CG, PGS) for n_ in (1, 0)]
+            cfgs += [(NEWTON, E("mjJAC_DENSE"), 1, 1, TOL), (CG, E("mjJAC_SPARSE"), 0, 2, TOL)]
+            for solver, jac, noisland, iters, tol in cfgs:
+                op = "solve %d %d %d %d %d %r %d %d %r 0" % (solver, cone, jac, noisland, iters, tol, nowarm, 50, impratio)
+                script.append(op)
+                meta.append(("solve", dict(info, op=op, solver=solver, noisland=noisland, jac=jac, cone=cone, nowarm=nowarm,
+                                           truncated=iters < 10, loose=False)))
+    ctx.extra["anisotropic_pair_scenes"] = pstat
     return script, meta
 
 
@@ -539,6 +589,89 @@ def tree_state(rng, joints, nv):
             "state qfrc_applied " + fmt([rng.gauss(0, 2) if rng.random() < 0.5 else 0.0 for _ in range(nv)])]
 
 
+# ---------------------------------------------------------------- explicit contact pairs with anisotropic friction
+def gen_pair_scene(rng):
+    """Bodies (free, or slide + hinge) whose geoms collide ONLY through explicit contact pairs (with the floor and with each
+    other) carrying five different friction coefficients, condim 3 / 4 / 6 (1 rarely), optional solreffriction: the only way to
+    reach contacts with friction[0] != friction[1].  Returns (lines, joints, info)."""
+    L = []
+    h = [0]
+
+    def newh():
+        h[0] += 1
+        return h[0]
+    L.append("option timestep %r" % rng.uniform(0.001, 0.004))
+    L.append("option integrator %d" % E(rng.choice(("mjINT_EULER", "mjINT_IMPLICITFAST"))))
+    L.append("option solver %d" % NEWTON)
+    L.append("option cone %d" % E("mjCONE_ELLIPTIC"))
+    L.append("option jacobian %d" % E("mjJAC_AUTO"))
+    L.append("option enableflags 0")
+    L.append("option disableflags 0")
+    g = newh()
+    L += ["geom %d 0" % g, "set %d type %d" % (g, E("mjGEOM_PLANE")), "set %d size 5 5 0.1" % g, "name %d floor" % g,
+          "set %d contype 0" % g, "set %d conaffinity 0" % g]
+    joints, geoms = [], []
+    nv = nq = 0
+    for b in range(rng.choice((1, 1, 2, 3))):
+        bh = newh()
+        r = rng.uniform(0.05, 0.15)
+        L += ["body %d 0" % bh, "name %d pb%d" % (bh, b), "set %d pos %s" % (bh, fmt([0.25 * b, rng.uniform(-0.05, 0.05), r - 0.004]))]
+        if rng.random() < 0.7:
+            jh = newh()
+            L += ["freejoint %d %d" % (jh, bh), "name %d pj%d" % (jh, len(joints))]
+            joints.append({"type": "free", "pos": [0.25 * b, rng.uniform(-0.05, 0.05), r - rng.uniform(0.0, 0.008)]})
+            nv += 6
+            nq += 7
+        else:
+            for ax in ([1, 0, 0], [0, 1, 0], [0, 0, 1]):
+                jh = newh()
+                L += ["joint %d %d" % (jh, bh), "name %d pj%d" % (jh, len(joints)), "set %d type %d" % (jh, E("mjJNT_SLIDE")), "set %d axis %s" % (jh, fmt(ax))]
+                joints.append({"type": "slide"})
+                nv += 1
+                nq += 1
+            jh = newh()
+            L += ["joint %d %d" % (jh, bh), "name %d pj%d" % (jh, len(joints)), "set %d type %d" % (jh, E("mjJNT_HINGE")),
+                  "set %d axis %s" % (jh, fmt([rng.gauss(0, 1), rng.gauss(0, 1), 1.0]))]
+            joints.append({"type": "hinge"})
+            nv += 1
+            nq += 1
+        gh = newh()
+        gt = rng.choice(("sphere", "sphere", "capsule", "ellipsoid", "box"))
+        size = {"sphere": [r], "capsule": [r, r], "ellipsoid": [r, 1.3 * r, r], "box": [r, r, r]}[gt]
+        L += ["geom %d %d" % (gh, bh), "name %d pg%d" % (gh, b), "set %d type %d" % (gh, E("mjGEOM_" + gt.upper())), "set %d size %s" % (gh, fmt(size)),
+              "set %d contype 0" % gh, "set %d conaffinity 0" % gh, "set %d density %r" % (gh, rng.uniform(300, 3000))]
+        geoms.append("pg%d" % b)
+    condims, aniso = [], 0
+    pairs = [(gname, "floor") for gname in geoms] + [(geoms[i], geoms[i + 1]) for i in range(len(geoms) - 1)]
+    for a, b in pairs:
+        ph = newh()
+        f0 = rng.uniform(0.2, 1.5)
+        f1 = f0 if rng.random() < 0.2 else f0 * rng.choice((rng.uniform(0.2, 0.9), rng.uniform(1.1, 3.0)))
+        fr = [f0, f1, rng.uniform(0.001, 0.05), rng.uniform(0.0001, 0.01), rng.uniform(0.0001, 0.01)]
+        cd = rng.choice((3, 3, 4, 4, 6, 6, 1))
+        L += ["pair %d" % ph, "set %d geomname1 %s" % (ph, a), "set %d geomname2 %s" % (ph, b), "set %d condim %d" % (ph, cd),
+              "set %d friction %s" % (ph, fmt(fr)), "set %d margin %r" % (ph, rng.choice((0.0, 0.02, 0.3)))]
+        if rng.random() < 0.2:
+            L.append("set %d solreffriction %s" % (ph, fmt([rng.uniform(0.01, 0.05), 1.0])))
+        condims.append(cd)
+        aniso += 1 if f1 != f0 else 0
+    return L, joints, {"nv": nv, "nq": nq, "condims": condims, "anisotropic": aniso}
+
+
+def pair_state(rng, joints, nv):
+    qpos = []
+    for j in joints:
+        if j["type"] == "free":
+            q = [1.0, 0.0, 0.0, 0.0] if rng.random() < 0.5 else [rng.gauss(0, 1) for _ in range(4)]
+            nrm = math.sqrt(sum(x * x for x in q))
+            qpos += j["pos"] + [x / nrm for x in q]
+        else:
+            qpos.append(rng.uniform(-0.01, 0.003) if j["type"] == "slide" else rng.uniform(-1, 1))
+    sc = rng.choice((0.05, 0.5, 2.0))     # slow: sticking (bottom zone); fast: sliding (cone zone)
+    return ["state qpos " + fmt(qpos), "state qvel " + fmt([rng.gauss(0, 1) * sc for _ in range(nv)]),
+            "state qfrc_applied " + fmt([rng.gauss(0, 3) if rng.random() < 0.5 else 0.0 for _ in range(nv)])]
+
+
 def cert_line(d, points):
     nv, nefc = d["nv"], d["nefc"]
     toks = ["cert", str(nv), str(nefc), str(d["ne"]), str(d["nf"]), str(d["ncon"]), str(len(points))]
@@ -562,6 +695,23 @@ def isl_line(d):
     toks += [hexf(x) for x in d["M"]] + [hexf(x) for x in d["J"]]
     toks += [str(x) for x in d["dof_island"]] + [str(x) for x in d["efc_island"]] + [str(x) for x in grp]
     return " ".join(toks)
+
+
+def imp_line(d, impratio):
+    """the regularisers of the frictional contacts of this solve for the Lean impedance checker (`imp` op of drv_c10); None when
+    the solve has no frictional contact"""
+    ell, pyr = E("mjCNSTR_CONTACT_ELLIPTIC"), E("mjCNSTR_CONTACT_PYRAMIDAL")
+    toks, n = [], 0
+    for c in d["contacts"]:
+        a = c["adr"]
+        if a < 0 or a >= d["nefc"] or d["type"][a] not in (ell, pyr):
+            continue
+        e = d["type"][a] == ell
+        nr = c["dim"] if e else 2 * (c["dim"] - 1)
+        toks += ["1" if e else "0", str(c["dim"]), str(nr), hexf(c["mu"])]
+        toks += [hexf(x) for x in d["R"][a:a + nr]] + [hexf(x) for x in d["D"][a:a + nr]] + [hexf(x) for x in c["friction"]]
+        n += 1
+    return ("imp %s %d " % (hexf(impratio), n) + " ".join(toks)) if n else None
 
 
 def row_tree_stats(d, stats):
@@ -675,7 +825,10 @@ def run(ctx):
                 "solves Newton/CG/PGS x monolithic/islands with random dense/sparse Jacobian, tolerance 1e-12; coupled-tree scenes "
                 "(2-5 trees of 1-4 dofs coupled only by 1-3 constraints spanning 2-3 trees: joint / tendon equality, tendon limit, "
                 "tendon friction loss, spatial tendon, connect / weld by body or site; adjacent trees half of the time; first / last / any "
-                "dof), two states each, all of Newton/CG/PGS x monolithic/islands x dense/sparse; per solve one "
+                "dof), two states each, all of Newton/CG/PGS x monolithic/islands x dense/sparse; contact-pair scenes (1-3 bodies, free or "
+                "3 slides + hinge, colliding only through explicit pairs with the floor and each other: 5 different friction coefficients "
+                "(isotropic 20%), condim 3/4/6 (1 rarely), margin, optional solreffriction; states at velocity scale 0.05/0.5/2; cone elliptic 2/3, "
+                "impratio 0.5/1/2/10), the six solves Newton/CG/PGS x monolithic/islands; per solve with frictional contacts one impedance line; per solve one "
                 "certificate line (points: final qacc, qacc_smooth, qacc_warmstart), per per-island solve one partition line "
                 "(M, J, dof_island, efc_island) and per state one cross-solver line; plus "
                 "synthetic one-dof line-search problems. A case is distinct by (model, state, solve op); non-trivial = nefc > 0")
@@ -703,7 +856,8 @@ def run(ctx):
     # ---------------------------------------------------------------- S / T(a): engine scenes
     nmodels = 200 if thorough else 24
     ntrees = 150 if thorough else 20
-    script, meta = gen_script(ctx, nmodels, ntrees)
+    npairs = 100 if thorough else 16
+    script, meta = gen_script(ctx, nmodels, ntrees, npairs)
     rc, outs, err = ctx.run_lines([impl], script, timeout=3000)
     if rc != 0 or len(outs) != len(meta):
         # the command that produced no output, and the model it ran on
@@ -747,6 +901,11 @@ def run(ctx):
             continue
         lines.append(cert_line(d, [d["qacc"], d["qacc_smooth"], d["qacc_warmstart"]]))
         owners.append(("solve", idx))
+        # the regularisers of the frictional contacts: hypothesis of the certificate for cone blocks (documented impedance law)
+        il = imp_line(d, float(info["op"].split()[9]))
+        if il is not None:
+            lines.append(il)
+            owners.append(("imp", idx))
         # the partition mj_island handed to the per-island solvers: hypotheses of island_solve_is_global_minimiser
         if not d["noisland"] and d["nisland"] > 0 and "efc_island" in d and "dof_island" in d:
             lines.append(isl_line(d))
@@ -767,11 +926,39 @@ def run(ctx):
     stats = {"solves": len(solves), "certified": 0, "converged": {}, "not_converged": {}, "max_bound_rel": {}, "max_cost_tie": 0.0,
              "max_force_tie": 0.0, "max_resid_rel": 0.0, "max_mono_excess_rel": 0.0, "max_pair_violation": 0.0, "max_agree_rel": {},
              "cert_refused": 0, "rows": {}, "max_force_agree_rel": {}, "island_partitions_checked": 0, "multi_tree_rows": {},
-             "next_tree_first_dof_only": {}, "max_island_vs_monolithic": {}, "island_pairs": 0}
+             "next_tree_first_dof_only": {}, "max_island_vs_monolithic": {}, "island_pairs": 0, "impedance_contacts": 0,
+             "impedance_anisotropic_elliptic": {}, "impedance_not_bitwise": 0, "max_impedance_dev": {}}
     cert_of = {}
     suspects = {}
     noisecost = {}       # what the engine's own cost evaluation in doubles cannot resolve (unscaled cost units), per converged solve
     for (kind, ref), line, out in zip(owners, lines, certs):
+        if kind == "imp":
+            info, d, rp = solves[ref]
+            if not out.startswith("ok"):
+                raise RuntimeError("drv_c10 refused an imp line: %s / %s" % (out[:100], line[:200]))
+            ell, pyr = E("mjCNSTR_CONTACT_ELLIPTIC"), E("mjCNSTR_CONTACT_PYRAMIDAL")
+            fcons = [c for c in d["contacts"] if 0 <= c["adr"] < d["nefc"] and d["type"][c["adr"]] in (ell, pyr)]
+            for c, part in zip(fcons, out.split("|")[1:]):
+                w = part.split()
+                dev = {"R": unhex(w[0]), "mu": unhex(w[1]), "DR": unhex(w[2]), "cone_relation": unhex(w[3])}
+                e = d["type"][c["adr"]] == ell
+                stats["impedance_contacts"] += 1
+                if e and c["friction"][0] != c["friction"][1]:
+                    stats["impedance_anisotropic_elliptic"]["dim%d" % c["dim"]] = stats["impedance_anisotropic_elliptic"].get("dim%d" % c["dim"], 0) + 1
+                stats["impedance_not_bitwise"] += int(w[4])
+                for k, v in dev.items():
+                    stats["max_impedance_dev"][k] = max(stats["max_impedance_dev"].get(k, 0.0), v if v == v else float("inf"))
+                bad = {k: v for k, v in dev.items() if not v <= IMP_REL}
+                if bad:
+                    a, nr = c["adr"], (c["dim"] if e else 2 * (c["dim"] - 1))
+                    fail("c10:contact-regularisers-off-documented-law", "%s contact at rows %d..%d (dim %d, friction %r, impratio %r): efc_R %r, efc_D %r, "
+                         "contact.mu %r deviate from the documented impedance law R[i+1] = R[i]/impratio, R[i+j+1] = R[i+1] friction[0]^2/friction[j]^2, "
+                         "mu = friction[0] sqrt(R[i+1]/R[i]), D = 1/R by %r (relative; cone_relation = defect of D[i+j] mu^2 = D[i] friction[j-1]^2): the primal "
+                         "cone cost (efc_D[i], mu, friction) and the dual problem (efc_R) are no longer the same problem and the certificate hypothesis "
+                         "(Props/C10 cone_block_gradIneq_documented_impedance) fails"
+                         % ("elliptic" if e else "pyramidal", a, a + nr - 1, c["dim"], c["friction"], float(info["op"].split()[9]), d["R"][a:a + nr],
+                            d["D"][a:a + nr], c["mu"], bad), rp)
+            continue
         if kind == "isl":
             info, d, rp = solves[ref]
             stats["island_partitions_checked"] += 1
@@ -921,10 +1108,13 @@ def run(ctx):
     ctx.extra["oracle_stats"] = stats
     ctx.extra["oracle_failures"] = fails
     ctx.extra["thresholds"] = {"bound_rel": BOUND_REL, "cost_tie_rel": COST_TIE_REL, "force_tie_rel": FORCE_TIE_REL,
-                               "mono_rel": MONO_REL, "resid_rel": RESID_REL, "island_agree": ISLAND_AGREE}
+                               "mono_rel": MONO_REL, "resid_rel": RESID_REL, "island_agree": ISLAND_AGREE, "imp_rel": IMP_REL}
     ctx.oblige("correspondence: every partition mj_island handed to a per-island solve satisfies the hypotheses of island_solve_is_global_minimiser "
                "(Lean partition checker on dof_island / efc_island / dense M, J of %d solves)" % stats["island_partitions_checked"], "correspondence",
                "c10:island-partition-not-separable" not in fails)
+    ctx.oblige("correspondence: efc_R / efc_D / contact.mu of every frictional contact == documented impedance law (Lean model impEll; %d contacts, "
+               "max relative deviation %.1e)" % (stats["impedance_contacts"], max([0.0] + list(stats["max_impedance_dev"].values()))), "correspondence",
+               "c10:contact-regularisers-off-documented-law" not in fails)
     ctx.assumptions.append("C10: which solver outputs get the verified certificate evaluated is sampled; convexity of the elliptic cone cost is a "
                            "hypothesis of the certificate theorems (proved in Props/C12 under the impedance relation)")
     if lines:
